@@ -590,6 +590,15 @@ impl Sim {
                 );
                 let ver = cw2_version(&self.deps.storage);
                 out.insert("version".into(), ver);
+                out.insert(
+                    "raw_totals".into(),
+                    json!(st.as_ref().map(|s| json!({
+                        "total_native_token": s.total_native_token.to_string(),
+                        "total_liquid_stake_token": s.total_liquid_stake_token.to_string(),
+                        "total_reward_amount": s.total_reward_amount.to_string(),
+                        "total_fees": s.total_fees.to_string(),
+                    }))),
+                );
             }
             Which::Treasury => {
                 out.insert("config".into(), self.query(&json!({"config": {}})));
